@@ -230,7 +230,7 @@ def ferm_vector(sym, ferm):
     return [bool(x) for x in ferm]
 
 
-def gen_inits(sym, rng, nreg=3, maxrank=4, complex_p=0.3, diag_p=0.1):
+def gen_inits(sym, rng, nreg=3, maxrank=4, complex_p=0.3, diag_p=0.1, want_diag=False):
     """ initial structures drawn over a small pool of leg spaces so that contractions / additions are often possible """
     mod = SYMS[sym]
     dims = {}
@@ -241,7 +241,7 @@ def gen_inits(sym, rng, nreg=3, maxrank=4, complex_p=0.3, diag_p=0.1):
             s0 = inits[rng.randrange(len(inits))]
             inits.append(dict(s0, dataseed=rng.randrange(1 << 30), density=rng.choice((0.5, 0.8, 1.0))))
             continue
-        if mod and rng.random() < diag_p:
+        if mod and (rng.random() < diag_p or (want_diag and r == nreg - 1)):
             lg = pool[rng.randrange(3)]
             sg = rng.choice((1, -1))
             inits.append({'s': [sg, -sg], 'legs': [lg, lg], 'n': tuple(0 for _ in mod), 'dtype': 'complex128' if rng.random() < 0.4 else 'float64', 'isdiag': True,
@@ -301,6 +301,28 @@ def choose_op(regs, obs, rng, weights, sym, allow_invalid=0.08):
             if len(cands) < 2:
                 continue
             return {'op': 'add3', 'a': a, 'b': rng.choice(cands), 'c': rng.choice(cands), 'amp': [rng.choice(GINTS[:9]), rng.choice(GINTS[:9]), rng.choice(GINTS)]}
+        if kind == 'diag':
+            c = [j for j in range(len(regs)) if obs[j]['dg'] or (len(obs[j]['s']) == 2 and len(obs[j]['grp']) == 2 and obs[j]['s'][0] == -obs[j]['s'][1]
+                                                                and not any(obs[j]['n']))]
+            if not c:
+                continue
+            return {'op': 'diag', 'a': rng.choice(c)}
+        if kind in ('broadcast', 'apply_mask'):
+            dg = [j for j in range(len(regs)) if obs[j]['dg']]
+            if not dg:
+                continue
+            d = rng.choice(dg)
+            b = rng.randrange(len(regs))
+            fz = [j for j in range(len(regs)) if any(len(g) > 1 for g in obs[j]['grp']) and any(len(g) == 1 for g in obs[j]['grp'])]
+            if fz and rng.random() < 0.6:
+                b = rng.choice(fz)
+            lrb = len(obs[b]['grp'])
+            ax = [k for k in range(lrb) if len(obs[b]['grp'][k]) == 1 and legs_agree(obs[d], 0, obs[b], k)]
+            if bad and lrb:
+                ax = [rng.randrange(lrb)]
+            if not ax:
+                continue
+            return {'op': kind, 'a': d, 'b': b, 'axis': rng.choice(ax)}
         if kind == 'scale':
             return {'op': 'scale', 'a': a, 'amp': [rng.choice(GINTS)]}
         if kind in ('conj', 'conj_blocks', 'flip_signature', 'copy', 'consume_transpose', 'norm2'):
@@ -476,6 +498,12 @@ def apply_op(op, regs):
             return 'ok', a.consume_transpose()
         if k == 'norm2':
             return 'num', complex(yastn.vdot(a, a))
+        if k == 'diag':
+            return 'ok', a.diag()
+        if k == 'broadcast':
+            return 'ok', a.broadcast(regs[op['b']], axes=op['axis'])
+        if k == 'apply_mask':
+            return 'ok', a.apply_mask(regs[op['b']], axes=op['axis'])
         if k == 'flip_charges':
             return 'ok', a.flip_charges(axes=tuple(op['axes']))
         if k == 'transpose':
@@ -534,12 +562,12 @@ def event_of(op, out, res, sym, nreg_map):
     return e
 
 
-def generate(sym, ferm, seed, nsteps, weights, knob=None):
+def generate(sym, ferm, seed, nsteps, weights, knob=None, want_diag=False):
     """ generate a program by running it (default configuration); returns (Prog, trace dict) """
     rng = random.Random(seed)
     knob = knob or {'fusion': 'hard', 'force': None, 'policy': 'fuse_to_matrix'}
     cfg = make_config(sym, ferm, knob['fusion'], knob['force'], knob['policy'])
-    inits = gen_inits(sym, rng)
+    inits = gen_inits(sym, rng, nreg=4 if want_diag else 3, want_diag=want_diag)
     regs = [build_init(cfg, sym, st) for st in inits]
     obs = [alpha(t, sym) for t in regs]
     ev = [{'op': 'init', 'obs': o} for o in obs]
